@@ -35,6 +35,7 @@ def handlerFor : String → Option Handler
   | "c10" => some GB.C10.handle
   | "c11" => some GB.C11.handle
   | "c12" => some GB.C12.handle
+  | "c12e2e" => some GB.C12.handle
   | "c13" => some GB.C13.handle
   | "c14" => some GB.C14.handle
   | "c15" => some GB.C15.handle
